@@ -6,7 +6,7 @@ T_MIX = "contract proof of totality/domain/structure clauses (Kani/CBMC, value-i
 
 CLAIMS = {
     "C01": {
-        "text": "Proved for all valid operands in the stated ranges that the result is a valid TwoFloat: the ten +/- operator and compound-assignment bodies, the five * bodies, to_degrees/to_radians, TwoFloat/f64 and /=, new_div (modular: new_add/new_sub/new_mul/fast_two_sum replaced by their contracts, which are proved for all inputs per exponent gap under C02), Neg; floor/ceil/trunc/round/fract (C08), From<int> (C09), abs/min/max (C06), constants (C12) through their own checks. NOT decided: f64/TwoFloat, TwoFloat/TwoFloat, /=TwoFloat, recip, %, div_euclid, rem_euclid, the elementary functions, and the induction over arbitrary call chains.",
+        "text": "Proved for all valid operands in the stated ranges that the result is a valid TwoFloat: the ten +/- operator and compound-assignment bodies, the five * bodies, to_degrees/to_radians, TwoFloat/f64 and /=, new_div (modular: new_add/new_sub/new_mul/fast_two_sum replaced by their contracts, which are proved for all inputs per exponent gap under C02), Neg; floor/ceil/trunc/round/fract (C08), From<int> (C09), abs/min/max (C06), constants (C12) through their own checks. NOT decided for all inputs: f64/TwoFloat, TwoFloat/TwoFloat, /=TwoFloat, recip, %, div_euclid, rem_euclid, the elementary functions (their results are checked valid only on the finite samples: 600 division pairs, 1797 reference operands of C13-C18), and the induction over arbitrary call chains.",
         "note": TB + "Rests on the leaf contracts discharged by C02's check (thorough: all 297 obligations) and on lemma L0 (valid_bits == Definition 1.4, proved under C07). Elementary functions and long division: not decided (magnitude reasoning through polynomial evaluation / three-digit long division is out of reach).",
         "technique": T_PROOF,
     },
